@@ -2,7 +2,7 @@
    up to pydantic's lax leaf conversions (lax_exception), for the sub-language sels_ok + sels_strict. *)
 From Coq Require Import List String Ascii Bool Arith Lia ZArith.
 From AC Require Import Base.Strs Base.Sexp Base.Json Gql.Schema Gql.Exec Py.Ann Py.Pydantic
-     Model.Names Model.Results Proofs.ResultsP Proofs.ResultsRunP Proofs.ResultsObjP.
+     Model.Names Model.Results Proofs.ResultsP Proofs.ResultsRunP Proofs.ResultsAbsP Proofs.ResultsObjP.
 Import ListNotations.
 Local Open Scope string_scope.
 Local Open Scope list_scope.
@@ -76,11 +76,20 @@ Definition field_strict (C : cfg) (S : schema) (nested : bool) (tn : string) (f 
            (negb (fn_cond f) || negb (is_nonnull t)) &&
            match lookup_type S (base_name t) with
            | Some DScalar => configured C (base_name t)
-           | Some (DInterface _ _) | Some (DUnion _) => false   (* abstract positions: not covered here *)
+           | Some (DInterface _ _) => false   (* the Literal of the base class contains the interface's own name *)
            | _ => true
            end
        | Err _ => false
        end.
+
+(* the strictness guard of a composite field's sub-selection: at a union position it must hold for every
+   member type *)
+Definition strict_sub (strict : string -> list sel -> bool) (S : schema) (base : string) (sub : list sel)
+  : bool :=
+  match lookup_type S base with
+  | Some (DUnion ms) => forallb (fun m => strict m sub) ms
+  | _ => strict base sub
+  end.
 
 Fixpoint sels_strict (fuel : nat) (C : cfg) (S : schema) (frs : list fragdef) (nested : bool) (tn : string)
          (sels : list sel) : bool :=
@@ -92,7 +101,7 @@ Fixpoint sels_strict (fuel : nat) (C : cfg) (S : schema) (frs : list fragdef) (n
           forallb (fun f =>
             field_strict C S nested tn f &&
             match fn_sub f, schema_field_type S tn (fn_name f) with
-            | Some sub, Ok t => sels_strict g C S frs true (base_name t) sub
+            | Some sub, Ok t => strict_sub (sels_strict g C S frs true) S (base_name t) sub
             | _, _ => true
             end) fns
       | None => false
@@ -189,8 +198,11 @@ Qed.
 
 Section LevelS.
   Variables (C : cfg) (S : schema) (frs : list fragdef).
-  Variables (fuel' g gs : nat) (cs : list pclass).
+  Variables (fuel' g : nat) (cs : list pclass).
   Variable W : ann -> json -> bool.
+  (* ok / strict: the guards required of nested selection sets *)
+  Variable ok : string -> string -> list sel -> bool.
+  Variable strict : string -> list sel -> bool.
   Hypothesis W_opt : forall a j, W (AOpt a) j = is_null j || W a j.
   Hypothesis W_list : forall a j, W (AList a) j = match j with JArr l => forallb (W a) l | _ => false end.
   Hypothesis W_scalar : forall n j, j <> JNull -> W (fst (scalar_ann C n false)) j = true ->
@@ -200,9 +212,17 @@ Section LevelS.
                                      leaf_conf S n (DEnum vs) j = true.
   Hypothesis W_lit : forall tn v, W (ALit [tn]) v = true -> v = JStr tn.
   Hypothesis W_class_obj : forall c j, W (AClass c) j = true -> exists kv, j = JObj kv.
-  Hypothesis W_class : forall pub cn2 tn2 sels2 out2 pub2 kv,
-      parse_type_def fuel' C S frs pub cn2 tn2 sels2 false [] (Some [tn2]) = Ok (out2, pub2, false) ->
-      sels_ok g true C S frs true tn2 tn2 sels2 = true -> sels_strict gs C S frs true tn2 sels2 = true ->
+  (* union positions: the checker discriminates on __typename with the field table mro *)
+  Variable mro : string -> option (list pfield).
+  Hypothesis W_uni : forall alts j, W (AUnion alts) j = true ->
+      exists kv s c, j = JObj kv /\ jlookup "__typename" kv = Some (JStr s) /\
+                     union_pick mro alts s = Some (AClass c) /\ W (AClass c) j = true.
+  Hypothesis mro_det : forall c fs, lookup_class cs (c_name c) = Some c -> c_name c <> "BaseModel" ->
+      c_bases c = ["BaseModel"] -> mro (c_name c) = Some fs -> fs = c_fields c.
+  Hypothesis fuel_pos : exists f2, fuel' = Datatypes.S f2.
+  Hypothesis W_class : forall pub cn2 tn2 sels2 at2 out2 pub2 kv,
+      parse_type_def fuel' C S frs pub cn2 tn2 sels2 at2 [] (Some [tn2]) = Ok (out2, pub2, false) ->
+      ok tn2 tn2 sels2 = true -> strict tn2 sels2 = true -> (at2 = true -> has_typename sels2 = true) ->
       table_ok cs out2 -> W (AClass cn2) (JObj kv) = true ->
       ev (fun fc => obj_lconf fc S frs tn2 sels2 kv).
 
@@ -213,12 +233,12 @@ Section LevelS.
 
   Definition sub_strict (tn : string) (f : fnode) : bool :=
     match fn_sub f, schema_field_type S tn (fn_name f) with
-    | Some sub, Ok t => sels_strict gs C S frs true (base_name t) sub
+    | Some sub, Ok t => strict_sub strict S (base_name t) sub
     | _, _ => true
     end.
 
   Lemma field_value_rev cn tn tv nested f pf ctx pub0 exc pub1 v :
-    field_ok (sels_ok g true C S frs true) g true S nested tn tn f = true ->
+    field_ok ok g true S nested tn tn f = true ->
     field_strict C S nested tn f = true -> sub_strict tn f = true ->
     tv = (if nested then Some [tn] else None) ->
     field_pf C S frs fuel' cn tn tv f = Ok (pf, ctx) ->
@@ -262,7 +282,12 @@ Section LevelS.
           apply (W_enum _ vs) in E; [discriminate E | exact El].
         - unfold object_ann in Hleaf. simpl in Hleaf. inversion Hleaf; subst x.
           destruct (W (AClass sc) JNull) eqn:E; [| reflexivity].
-          apply W_class_obj in E. destruct E as [kv E]. discriminate E. }
+          apply W_class_obj in E. destruct E as [kv E]. discriminate E.
+        - (* union *)
+          destruct (fold_left _ ms _) as [r1|] eqn:Efold; simpl in Hleaf; [| discriminate Hleaf].
+          inversion Hleaf; subst x.
+          destruct (W (AUnion (fst r1)) JNull) eqn:E; [| reflexivity].
+          apply W_uni in E. destruct E as [kv [s0 [c0 [E _]]]]. discriminate E. }
       pose proof (W_wrapP W W_opt W_list _ t img v Hwf Himg Hnull Hw) as Hwrap.
       eapply wrapP_impl; [| exact Hwrap]. clear Hwrap.
       intros j' [Hnn [x [Hleaf Hwx]]]. split; [exact Hnn|].
@@ -290,11 +315,68 @@ Section LevelS.
         rewrite Emix in Hq.
         rewrite (typename_values_object S _ (base_name t)) in Hq;
           [| unfold is_object; rewrite El; reflexivity | reflexivity].
+        unfold strict_sub in Hss. rewrite El in Hss.
         assert (He : ev (fun fc => obj_lconf fc S frs (base_name t) sub kv')).
-        { eapply W_class; eauto.
+        { eapply (W_class _ _ _ _ false); eauto; [discriminate|].
           eapply table_ok_incl; [exact Htab|]. rewrite app_nil_r. apply incl_refl. }
         apply ev_shift in He. destruct He as [a Ha]. exists a. intros [|k] Hk; [specialize (Ha 0 Hk); discriminate|].
         specialize (Ha _ Hk). cbn [conf_val_gen]. rewrite El.
+        unfold sub_scopes. simpl. rewrite Esub. simpl. rewrite andb_false_r. exact Ha.
+      + (* union: the discriminator names a member, whose class validated the object *)
+        set (base := base_name t) in *.
+        destruct fuel_pos as [f2 Ef].
+        unfold abs_ok in Hok.
+        apply andb_true_iff in Hok as [Hok Hall]. apply andb_true_iff in Hok as [Hok Hun].
+        apply andb_true_iff in Hok as [Hok Hnb]. apply andb_true_iff in Hok as [Hok Hsome].
+        apply andb_true_iff in Hok as [Hok Hns]. apply andb_true_iff in Hok as [_ Hht].
+        rewrite El in Hun.
+        assert (Hna : named_ann C S frs fuel' (Some sub) base false sc false = Ok (x, snd r)).
+        { unfold named_ann. rewrite El. rewrite Hctx in Hleaf. inversion Hleaf; subst a1. exact Hctx. }
+        destruct (named_ann_union _ _ _ _ _ _ _ _ _ _ El Hun Hna) as [Hab [Hx Hrel]]. subst x.
+        destruct (W_uni _ _ Hwx) as [kv' [s0 [c0 [Ej [Hjl [Hpick Hwc]]]]]]. subst j'.
+        apply parse_subs_inv in Hsub. destruct Hsub as [[Hn _] | [sub' [Hs Hrun]]]; [congruence|].
+        rewrite Esub in Hs. inversion Hs; subst sub'; clear Hs.
+        (* the picked alternative is the class of a member t0 whose literal contains s0 *)
+        unfold union_pick in Hpick. apply find_some in Hpick. destruct Hpick as [Hin Hpred].
+        apply in_map_iff in Hin. destruct Hin as [t0 [Ec0 Ht0]]. inversion Ec0; subst c0. clear Ec0.
+        assert (Hrc : In (rel_of sc t0) (x_related (snd r))) by (rewrite Hrel; apply in_map, Ht0).
+        destruct (subs_run_each _ _ _ _ _ _ _ _ _ _ Hrun eq_refl _ Hrc) as [pa [qc [qp [Hq Hi]]]].
+        simpl in Hq. rewrite Hab, Emix in Hq.
+        assert (Htv0 : typename_values S (x_related (snd r)) t0 = [t0]).
+        { unfold typename_values. rewrite Hrel, map_map. simpl. rewrite map_id.
+          assert (Hnone : find (fun n => match lookup_type S n with Some d => is_abstract d | None => false end) ms = None).
+          { clear - Hun. induction ms as [|m ms IH]; simpl; [reflexivity|].
+            simpl in Hun. apply andb_true_iff in Hun as [H1 H2]. unfold is_object in H1.
+            destruct (lookup_type S m) as [[]|]; try discriminate H1. simpl. apply IH, H2. }
+          rewrite Hnone. reflexivity. }
+        rewrite Htv0 in Hq.
+        pose proof Hq as Hq'. rewrite Ef in Hq'.
+        destruct (variant_class_facts _ _ _ _ _ _ _ _ _ _ _ _ Hq' Hns) as [fields0 [pfl0 [extra0 [_ [_ [Eqc Hlit]]]]]].
+        assert (Hcin : In {| c_name := sc +++ t0; c_bases := ["BaseModel"]; c_fields := pfl0 |} exc)
+          by (apply Hi; rewrite Eqc; left; reflexivity).
+        destruct (Htab _ Hcin) as [Hlk Hnbm].
+        destruct (mro (sc +++ t0)) as [fs|] eqn:Emro; [| discriminate Hpred].
+        pose proof (mro_det _ fs Hlk Hnbm eq_refl Emro) as Efs. simpl in Efs. subst fs.
+        unfold typename_literal in Hpred.
+        destruct (find (fun f0 => String.eqb (p_name f0) "typename__") (last_wins pfl0)) as [f'|] eqn:Ef';
+          [| discriminate Hpred].
+        destruct (p_ann f') as [| | | | | | | | | | |vs] eqn:Ea; try discriminate Hpred.
+        apply find_some in Ef'. destruct Ef' as [Hf' _]. apply last_wins_In in Hf'.
+        rewrite (Hlit f' vs Hf' Ea) in Hpred. unfold mem in Hpred. simpl in Hpred. rewrite orb_false_r in Hpred.
+        apply String.eqb_eq in Hpred. subst s0.
+        (* the member's guards *)
+        assert (Hposs : possible_types S base = ms) by (unfold possible_types; rewrite El; reflexivity).
+        rewrite forallb_forall in Hall. rewrite Hposs in Hall. specialize (Hall t0 Ht0).
+        apply andb_true_iff in Hall as [_ Hokt].
+        assert (Hnames : abs_names S base sub = ms) by (unfold abs_names; rewrite El; reflexivity).
+        rewrite Hnames in Hokt. unfold variant in Hokt. rewrite (proj2 (mem_In t0 ms) Ht0) in Hokt.
+        unfold strict_sub in Hss. rewrite El in Hss. rewrite forallb_forall in Hss. specialize (Hss t0 Ht0).
+        assert (He : ev (fun fc => obj_lconf fc S frs t0 sub kv')).
+        { eapply (W_class pa (sc +++ t0) t0 sub true); eauto.
+          eapply table_ok_incl; eauto. }
+        apply ev_shift in He. destruct He as [a Ha]. exists a. intros [|k] Hk; [specialize (Ha 0 Hk); discriminate|].
+        specialize (Ha _ Hk). cbn [conf_val_gen]. rewrite El. apply existsb_exists. exists t0.
+        split; [rewrite Hposs; exact Ht0|].
         unfold sub_scopes. simpl. rewrite Esub. simpl. rewrite andb_false_r. exact Ha.
   Qed.
 
@@ -306,7 +388,7 @@ Section LevelS.
 
   Lemma level_facts_rev cn tn tv nested fns pub pfl extra pub' :
     fields_run (parse_type_def fuel' C S frs) C S frs fuel' cn tn tv fns pub pfl extra pub' false ->
-    forallb (field_ok (sels_ok g true C S frs true) g true S nested tn tn) fns = true ->
+    forallb (field_ok ok g true S nested tn tn) fns = true ->
     forallb (fun f => field_strict C S nested tn f && sub_strict tn f) fns = true ->
     tv = (if nested then Some [tn] else None) -> table_ok cs extra ->
     Forall2 (field_facts_rev tn) fns pfl.
@@ -390,17 +472,44 @@ Proof.
   intros Hl Hb Hn. cbn [mro_fields]. rewrite (eqb_neq_false _ _ Hn), Hl, Hb. reflexivity.
 Qed.
 
-Theorem obj_strict C S frs : forall fuel g gs nested pub cn tn sels tv out pub' cs kv n,
-  parse_type_def fuel C S frs pub cn tn sels false [] tv = Ok (out, pub', false) ->
+Lemma mro_some_simple cs n c j fs :
+  lookup_class cs n = Some c -> n <> "BaseModel" -> c_bases c = ["BaseModel"] ->
+  mro_fields j cs n = Some fs -> fs = c_fields c.
+Proof.
+  intros Hl Hn Hb H. destruct j as [|j]; [discriminate H|]. cbn [mro_fields] in H.
+  rewrite (eqb_neq_false _ _ Hn), Hl, Hb in H. cbn [fold_left] in H.
+  destruct j as [|j]; [discriminate H|]. simpl in H. unfold mro_merge in H. simpl in H.
+  rewrite app_nil_r in H. inversion H. reflexivity.
+Qed.
+
+Lemma acc_cov_union cs enums n1 alts j :
+  accepts (Datatypes.S n1) cs enums (AUnion alts) j && covers (Datatypes.S n1) cs (AUnion alts) j = true ->
+  exists kv s c, j = JObj kv /\ jlookup "__typename" kv = Some (JStr s) /\
+                 union_pick (mro_fields n1 cs) alts s = Some (AClass c) /\
+                 accepts (Datatypes.S n1) cs enums (AClass c) j && covers (Datatypes.S n1) cs (AClass c) j = true.
+Proof.
+  intro H. apply andb_true_iff in H as [Ha Hc]. simpl in Ha, Hc.
+  destruct j as [| | | | | |kv]; try discriminate Ha.
+  destruct (jlookup "__typename" kv) as [[| | | |s| |]|] eqn:Ej; try discriminate Ha.
+  destruct (union_pick (mro_fields n1 cs) alts s) as [[| | | | | | |c| | | |]|] eqn:Ep; try discriminate Ha.
+  exists kv, s, c. repeat split; auto.
+  change (class_accepts (accepts n1 cs enums) (mro_fields n1 cs c) (JObj kv)
+          && class_covers (covers n1 cs) (mro_fields n1 cs c) (JObj kv) = true).
+  rewrite Ha, Hc. reflexivity.
+Qed.
+
+Theorem obj_strict C S frs : forall fuel g gs nested pub cn tn sels at_ tv out pub' cs kv n,
+  parse_type_def fuel C S frs pub cn tn sels at_ [] tv = Ok (out, pub', false) ->
   sels_ok g true C S frs nested tn tn sels = true -> sels_strict gs C S frs nested tn sels = true ->
+  (at_ = true -> has_typename sels = true) ->
   tv = (if nested then Some [tn] else None) -> table_ok cs out ->
   accepts n cs (schema_enums S) (AClass cn) (JObj kv) = true ->
   covers n cs (AClass cn) (JObj kv) = true ->
   ev (fun fc => obj_lconf fc S frs tn sels kv).
 Proof.
-  induction fuel as [|fuel IH]; intros g gs nested pub cn tn sels tv out pub' cs kv n Hp Hok Hst Htv Htab Hacc Hcov;
+  induction fuel as [|fuel IH]; intros g gs nested pub cn tn sels at_ tv out pub' cs kv n Hp Hok Hst Hat Htv Htab Hacc Hcov;
     [discriminate Hp|].
-  destruct (level_inv _ _ _ _ _ _ _ _ _ _ _ _ _ _ _ _ Hp Hok ltac:(discriminate)) as [f2 [g' [fns [pfl [extra [Ef [Eg [Hfl [Hrun Hout]]]]]]]]].
+  destruct (level_inv _ _ _ _ _ _ _ _ _ _ _ _ _ _ _ _ Hp Hok Hat) as [f2 [g' [fns [pfl [extra [Ef [Eg [Hfl [Hrun Hout]]]]]]]]].
   destruct (sels_ok_inv _ _ _ _ _ _ _ _ _ Hok) as [g'' [fns' [Eg' [Hfl' [Hkeys [Hnames Hfields]]]]]].
   rewrite Eg in Eg'. inversion Eg'; subst g''. clear Eg'. specialize (Hnames eq_refl).
   rewrite Hfl in Hfl'. inversion Hfl'; subst fns'. clear Hfl'.
@@ -421,7 +530,9 @@ Proof.
     set (Wa := accepts (Datatypes.S n1) cs (schema_enums S)) in *.
     set (Wc := covers (Datatypes.S n1) cs) in *.
     assert (HF : Forall2 (field_facts_rev C S frs (fun a j => Wa a j && Wc a j) tn) fns pfl).
-    { eapply (level_facts_rev C S frs fuel g' gs' cs); try eassumption.
+    { eapply level_facts_rev with (W := fun a j => Wa a j && Wc a j) (mro := mro_fields n1 cs)
+                                  (ok := sels_ok g' true C S frs true) (strict := sels_strict gs' C S frs true)
+                                  (fuel' := fuel) (g := g') (cs := cs); try eassumption.
       - intros a j. unfold Wa, Wc. simpl. destruct (is_null j); reflexivity.
       - intros a j. unfold Wa, Wc. simpl. destruct j; try reflexivity. apply forallb_andb.
       - intros m j Hnn H. apply andb_true_iff in H as [H _]. unfold Wa in H. cbn [accepts] in H.
@@ -434,7 +545,10 @@ Proof.
         apply String.eqb_eq in H. congruence.
       - intros c j H. apply andb_true_iff in H as [H _]. unfold Wa in H. simpl in H.
         destruct j; try discriminate H. eauto.
-      - intros pb cn2 tn2 sels2 out2 pub2 kv2 P1 P2 P3 P4 P5. apply andb_true_iff in P5 as [P5 P6].
+      - intros alts j H. unfold Wa, Wc in *. apply acc_cov_union, H.
+      - intros c fs Hlc Hnc Hbc Hm. eapply mro_some_simple; eauto.
+      - eauto.
+      - intros pb cn2 tn2 sels2 at2 out2 pub2 kv2 P1 P2 P3 P3' P4 P5. apply andb_true_iff in P5 as [P5 P6].
         eapply IH; eauto.
       - eapply table_ok_incl; [exact Htab|]. rewrite Hout. apply incl_tl, incl_refl. }
     destruct (level_strict C S frs tn Wa Wc kv _ _ HF Hkeys Hnames Hacc Hcov) as [Hkv Hspec].
@@ -466,7 +580,8 @@ Proof.
   { destruct n as [|n']; [discriminate Hacc|]. simpl in Hacc. destruct j; try discriminate Hacc. eauto. }
   destruct Hj as [kv Ej]. subst j.
   unfold op_parse in Hop. rewrite Hroot in Hop. simpl in Hop.
-  assert (He : ev (fun fc => obj_lconf fc S frs root sels kv)) by (eapply obj_strict; eauto).
+  assert (He : ev (fun fc => obj_lconf fc S frs root sels kv))
+    by (eapply (obj_strict C S frs fuel g gs false [] (pascal_s name) root sels false); eauto; discriminate).
   destruct He as [a Ha]. exists (Datatypes.S (Datatypes.S a)). intros [|[|k]] Hk; try lia.
   unfold conf_op_gen. cbn [conf_val_gen]. unfold is_object in Hobj.
   destruct (lookup_type S root) as [[]|]; try discriminate Hobj. apply Ha. lia.
